@@ -27,7 +27,7 @@ func genErr(t *rapid.T) ErrCase {
 }
 
 func genErrBody(t *rapid.T) ErrCase {
-	x := gen.Soup(t)
+	x := gen.WithHugeLine(t, gen.Soup(t))
 	switch rapid.IntRange(0, 3).Draw(t, "lead") {
 	case 1:
 		x = "\n\n" + x
